@@ -189,7 +189,7 @@ func init() {
 		ID:    "C08",
 		Level: "exploration",
 		Rule: "cases: seed patches (every patch in testdata/* and examples/*, the schema libraries of this harness) x mutations {truncation at a random byte, token insertion/replacement from a dictionary of patch-significant tokens, span deletion, line duplication/swap/drop, " +
-			"prefix flip, random bytes, double mutation}, grammar-generated well-formed but ill-typed patches (metavariables in wrong slots, elisions in non-list positions, mismatched sides), random byte strings, and well-formed patches with 6-13 elisions in one list against lists of 30-80 similar elements (the elision search must not be exponential); every patch that is accepted is applied to 12 target files chosen for construct coverage " +
+			"prefix flip, random bytes, double mutation, concatenation of two seeds (the second change runs on the tree the first one built)}, grammar-generated well-formed but ill-typed patches (metavariables in wrong slots, elisions in non-list positions, mismatched sides), random byte strings, and well-formed patches with 6-13 elisions in one list against lists of 30-80 similar elements (the elision search must not be exponential); every patch that is accepted is applied to 12 target files chosen for construct coverage " +
 			"(library API in a worker subprocess; every 8th also through the CLI). Monitor: BEGIN/END worker protocol with per-call panic recovery, CPU-time budget (20 s per case, confirmed by a solo re-run under RLIMIT_CPU=60), RSS limit 3 GiB, CLI exit status / stderr classifier. " +
 			"Violation = panic, fatal error, exit status other than 0/1, CPU or memory exhaustion. non-trivial = mutant differs from its seed and is non-empty; distinct = (seed, mutation kind, outcome class).",
 		Assumptions: []string{"inputs are small (patch <= 8 KiB, targets <= 10 KiB): 20 CPU-seconds for 40 patches x 12 targets is three orders of magnitude above the normal cost"},
@@ -222,6 +222,13 @@ func runC08(ctx *core.Ctx, idx int) *core.Result {
 		switch {
 		case k%10 == 9:
 			pt, kind = illTyped(r)
+		case k%10 == 7:
+			// two patches in one file: the second change runs on whatever tree the first one built
+			a, b := seed, c08Seeds[r.Intn(len(c08Seeds))]
+			if r.Intn(2) == 0 {
+				a, b = b, a
+			}
+			pt, kind = strings.TrimRight(a, "\n")+"\n\n"+b, "two-seeds"
 		case k%20 == 18:
 			b := make([]byte, r.Intn(200))
 			r.Read(b)
